@@ -4,6 +4,11 @@ import json, os, sys
 ROOT = os.path.dirname(os.path.dirname(os.path.abspath(__file__)))
 
 CHECKS = {
+ "C17": ("fault_enumeration",
+         "stateful model-based property testing (generated operation histories over request ids against a reference lifecycle map) with crash-and-recover steps and store-fault injection at a frame append, at the commit flush and after the flush (lost acknowledgement) through a WalStorePort wrapper; oracle = reference model of the requested->claimed->settled prefix, flush journal (durable before returned), recovered-coordinator equality, exact-once transaction counts",
+         "Every request/claim/settle/retry/observe operation with valid and invalid arguments (one invalid aspect at a time), with reconstructed and with stale tokens and grants, gets the outcome class the lifecycle model predicts; grants are returned only after their commit reached the store; at most one claim per id; settlements only for the claimed attempt within bounds; refused steps and retries append nothing; after any crash, store failure or lost acknowledgement the recovered coordinator equals the model (before or after the interrupted step as the log dictates) and the incrementally maintained coordinator equals the one rebuilt from the log, including the index root; an interrupted step can be re-issued exactly once.",
+         "In-memory store behind the public WalStorePort trait; v1 accepts attempt budget 1 only.",
+         "DESIGN.md §4 C17"),
  "C10": ("fault_enumeration",
          "property-based workloads on a real host with a filesystem WAL + crash-point enumeration (every byte-length prefix for the byte-level reader; every transaction boundary +-1, frame boundaries, mid-frame and sampled lengths for a fresh host, each with the side-file versions that can coexist) + store-fault injection (FilesystemWalFaultPlan at a generated writing operation); oracle = committed prefix computed by the harness from the documented record framing, acknowledged-facts ledger recorded after every operation, executor counter, idempotence, continuation equivalence with the uninterrupted run",
          "For generated submit/retry/stage/tick workloads on a TrustedRuntimeHost: recovery of every cut succeeds, runs no rule, returns exactly the transactions wholly below the cut with a Clean tail only at transaction boundaries, restores every fact acknowledged at that prefix (submission ids, outcomes with receipt references, frontier ticks, state roots, hash chains) and nothing later, is idempotent, and the recovered host - after re-issuing volatile staging - finishes the script with the uninterrupted run's facts and answers every earlier envelope as a duplicate without appending. A failing store call leaves facts and in-memory renderings unchanged and the directory it leaves recovers the same way.",
